@@ -611,7 +611,8 @@ func buildRef(sc *pipeScenario) *pipeRef {
 				ctx := &refCtx{line: text, idx: rl.Idx, names: names, src: in.Name, lineNo: rl.No}
 				ignored := false
 				for _, ig := range igs {
-					if expressions.Truthy(ig.BuildKey(ctx)) {
+					// truthy as documented: anything but empty/whitespace-only (the world's own test, not rare's helper)
+					if strings.TrimSpace(ig.BuildKey(ctx)) != "" {
 						ignored = true
 						break
 					}
